@@ -163,6 +163,46 @@ Section Flush.
         | Some s2 => Some (after_loop s2)
         end
     end.
+  (* ---- the repair proposed in proposed_fixes/C33-obj-flush-principal-before-hooks.diff:  Entity.flush calls
+     obj._save_(call_before_hooks=True); _save_principal_objects_ then calls val._before_save_() right before val._save_(..)
+     for every principal that is still 'created'.  deps = dependent_objects (a cyclic chain is an error). *)
+  Fixpoint save_obj_h (fuel : nat) (deps : list nat) (o : nat) (s : state) : option state :=
+    match fuel with
+    | O => None
+    | S f =>
+        match pending_kind (o_status (objs s o)) with
+        | None => Some s
+        | Some k =>
+            if existsb (Nat.eqb o) deps then None           (* UnresolvableCyclicDependency *)
+            else
+            let ps := match k with KDel => [] | _ => o_princ (objs s o) end in
+            let r := fold_left (fun acc p => match acc with
+                                             | None => None
+                                             | Some s' => match o_status (objs s' p) with
+                                                          | SCreated => save_obj_h f (o :: deps) p (run_hook true KIns p (add_log (EB KIns p) s'))
+                                                          | _ => Some s'
+                                                          end
+                                             end) ps (Some s) in
+            match r with
+            | None => None
+            | Some s1 => match pending_kind (o_status (objs s1 o)) with
+                         | Some k' => Some (write o k' s1)
+                         | None => Some s1
+                         end
+            end
+        end
+    end.
+
+  Definition obj_flush_h (fuel : nat) (o : nat) (s : state) : option state :=
+    match pending_kind (o_status (objs s o)) with
+    | None => Some s
+    | Some k =>
+        let s1 := run_hook true k o (add_log (EB k o) s) in
+        match save_obj_h fuel [] o s1 with
+        | None => None
+        | Some s2 => Some (after_loop s2)
+        end
+    end.
 End Flush.
 
 (* ------------------------------------------------------------------ specification side: per-object phase automaton *)
